@@ -350,6 +350,16 @@ class World(object):
         elif self.cfg['xdg'] == 'empty':
             e['XDG_DATA_HOME'] = ''
         e['TRASH_PUT_FAKE_UID_FOR_TESTING'] = str(self.conc.uid)
+        # the volumes may also be named by the environment (same set as the mount table, any order, empty elements
+        # ignored); an empty value means "not set"
+        rr = random.Random('trashvolumes|%s' % self.conc.variant_seed)
+        v = rr.random()
+        if v < 0.2:
+            ms = list(self.mounts())
+            rr.shuffle(ms)
+            e['TRASH_VOLUMES'] = ':'.join(ms) + rr.choice(['', ':', '::'])
+        elif v < 0.3:
+            e['TRASH_VOLUMES'] = ''
         if extra:
             e.update(extra)
         return e
